@@ -5,5 +5,8 @@ package main
 func init() {
 	targets["simulation.go"] = append(targets["simulation.go"], "SimulationBFTree.CreateTree+cond")
 	targets["tree.go"] = append(targets["tree.go"], "Roster.Search+cond")
-	targets["app/config.go"] = append(targets["app/config.go"], "ambiguousKeys+cond")
+	targets["app/config.go"] = append(targets["app/config.go"], "ambiguousKeys+cond", "GroupToml.String+cond", "GroupToml.Save", "Group.Save",
+		"ServerToml.ToServerIdentity", "NewServerToml", "ServerToml.String+cond")
+	targets["network/struct.go"] = append(targets["network/struct.go"], "ServerIdentity.Toml", "ServerIdentityToml.ServerIdentity")
+	targets["tree.go"] = append(targets["tree.go"], "Roster.Toml", "RosterToml.Roster")
 }
